@@ -116,6 +116,12 @@ type mvEnv struct {
 	seenDelegs map[string]bool
 	// sched: the schedule of a tick as first computed (by a cold instance); every later computation must give the same list
 	sched map[uint64]string
+	// pcs: a consensus instance over a persistent (leveldb) consensus database, restarted every round (s_mverify_restart.go)
+	pcs *persistentCs
+	// noise: goroutines drawing from the process-wide math/rand generator, switched on while a cold instance elects
+	noise *randNoise
+	rounds        int
+	restartFailed bool
 }
 
 func (e *mvEnv) frontier() *nom.Momentum {
@@ -542,7 +548,16 @@ func (e *mvEnv) round(gapSlots int64) {
 		for i := 0; i < int(e.cctx.NodeCount); i++ {
 			t := s.Add(time.Duration(int64(i)*bt) * time.Second)
 			a, err1 := e.z.Consensus().GetMomentumProducer(t)
+			// the first slot asked is the cold instance's cache miss: it runs the election now — while other goroutines of
+			// the process draw from the process-wide math/rand generator, as the network goroutines of a live node do
+			if i == 0 && e.noise != nil {
+				e.noise.enable()
+				c.Hit("cold-election-under-global-rand-noise")
+			}
 			b, err2 := cold.GetMomentumProducer(t)
+			if i == 0 && e.noise != nil {
+				e.noise.disable()
+			}
 			if err2 == nil {
 				list = append(list, addrName(*b))
 			} else {
@@ -550,7 +565,7 @@ func (e *mvEnv) round(gapSlots int64) {
 			}
 			c.Hit("slot-compared")
 			if (err1 == nil) != (err2 == nil) || (err1 == nil && *a != *b) {
-				c.Fail("schedule: tick %d slot %d: cached instance elects %v (err %v), a cold instance %v (err %v)", tk, i, a, err1, b, err2)
+				c.Fail("schedule: tick %d slot %d: cached instance elects %v (err %v), a cold instance %v (err %v) [the cold instance ran this tick's election while other goroutines drew from the process-wide math/rand generator]", tk, i, a, err1, b, err2)
 			}
 			if err1 == nil {
 				seenProd[*a]++
@@ -578,6 +593,9 @@ func (e *mvEnv) round(gapSlots int64) {
 			}
 		}
 	}
+	// the same ticks (and earlier ones) on a node that is restarted on its persistent consensus database
+	e.rounds++
+	e.restartCheck(cold, tick, ticks, e.rounds%4 == 1)
 	// advance the chain with the valid momentum
 	insert = ch.AcquireInsert("zvh mverify insert")
 	err = ch.AddMomentumTransaction(insert, tx)
@@ -666,6 +684,9 @@ func init() {
 		gm := z.Chain().GetGenesisMomentum()
 		e := &mvEnv{c: c, z: z, sup: vm.NewSupervisor(z.Chain(), z.Consensus()), genesis: *gm.Timestamp,
 			cctx: consensus.NewConsensusContext(*gm.Timestamp), ver: verifier.NewVerifier(z.Chain(), z.Consensus()), seenDelegs: map[string]bool{}}
+		e.noise = startRandNoise(3)
+		defer e.noise.close()
+		defer e.closePersistent(true)
 		rounds := c.N
 		if rounds < 3 {
 			rounds = 3
